@@ -786,10 +786,92 @@ Proof.
     + destruct X.
 Qed.
 
+(* ---- option values as strings ---- *)
+Lemma str_is_eq : forall v s, str_is v s = true <-> v = Some s.
+Proof.
+  intros [x|] s; cbn; [rewrite String.eqb_eq|]; split; intros H; try discriminate; congruence.
+Qed.
+(* the theorem the guard on solver names is for: for EVERY string (and None), a validated solver runs the routine it
+   names, on every backend; validation and dispatch are the same relation (==) on strings *)
+Theorem validated_dispatch_str : forall b v, validate_solver_str b v = true ->
+  requested_method v = Some (solve_dispatch_str b v) /\ method_implemented b (solve_dispatch_str b v) = true.
+Proof.
+  intros b [s|] H; [|discriminate]. cbn in H. apply mem_In in H.
+  destruct b; cbn in H;
+    repeat (destruct H as [<- | H]; [split; reflexivity|]); destruct H.
+Qed.
+Theorem validated_adaptive_str : forall b v, validate_solver_str b v = true ->
+  is_integration_adaptive_str v = match solve_dispatch_str b v with MEuler | MHeun => false | _ => true end.
+Proof.
+  intros b [s|] H; [|discriminate]. cbn in H. apply mem_In in H.
+  destruct b; cbn in H; repeat (destruct H as [<- | H]; [reflexivity|]); destruct H.
+Qed.
+(* ... and a string that is not validated is not one the backend implements *)
+Theorem unvalidated_not_requested : forall b v, validate_solver_str b v = false ->
+  match requested_method v with Some m => method_implemented b m = false | None => True end.
+Proof.
+  intros b [s|] H; [|exact I]. unfold requested_method, str_is. cbn in H.
+  destruct (String.eqb s "euler") eqn:E1; [apply String.eqb_eq in E1; subst; destruct b; discriminate|].
+  destruct (String.eqb s "heun") eqn:E2; [apply String.eqb_eq in E2; subst; destruct b; try discriminate; reflexivity|].
+  destruct (String.eqb s "scipy") eqn:E3; [apply String.eqb_eq in E3; subst; destruct b; discriminate|].
+  destruct (String.eqb s "diffrax") eqn:E4; [apply String.eqb_eq in E4; subst; destruct b; try discriminate; reflexivity|].
+  exact I.
+Qed.
+(* the string level agrees with the enumeration used by the matrix *)
+Theorem validate_solver_str_enum : forall b s,
+  validate_solver_str b (Some s) = existsb (solver_eqb (solver_of_string s)) (SUPPORTED_SOLVERS b).
+Proof.
+  intros b s. unfold validate_solver_str, solver_of_string, mem.
+  destruct (String.eqb s "euler") eqn:E1; [apply String.eqb_eq in E1; subst; destruct b; reflexivity|].
+  destruct (String.eqb s "heun") eqn:E2; [apply String.eqb_eq in E2; subst; destruct b; reflexivity|].
+  destruct (String.eqb s "scipy") eqn:E3; [apply String.eqb_eq in E3; subst; destruct b; reflexivity|].
+  destruct (String.eqb s "diffrax") eqn:E4; [apply String.eqb_eq in E4; subst; destruct b; reflexivity|].
+  destruct b; cbn; rewrite ?E1, ?E2, ?E3, ?E4; reflexivity.
+Qed.
+
+Lemma documented_select : forall v c, documented_backend v = Some c -> select_backend v = c.
+Proof.
+  intros [s|] c; cbn; [|congruence].
+  destruct (String.eqb s "torch"); [congruence|]. destruct (String.eqb s "jax"); [congruence|].
+  destruct (String.eqb s "fortran"); [congruence|]. destruct (String.eqb s "julia"); [congruence|].
+  destruct (String.eqb s "matlab"); [congruence|]. destruct (_ || _); [congruence | discriminate].
+Qed.
+Lemma undocumented_select : forall v, documented_backend v = None -> select_backend v = CBase.
+Proof.
+  intros [s|]; cbn; [|discriminate].
+  destruct (String.eqb s "torch"); [discriminate|]. destruct (String.eqb s "jax"); [discriminate|].
+  destruct (String.eqb s "fortran"); [discriminate|]. destruct (String.eqb s "julia"); [discriminate|].
+  destruct (String.eqb s "matlab"); [discriminate|]. reflexivity.
+Qed.
+Lemma option_gen_ok_wellformed : forall fixed5 k v,
+  match k with OBackend => fixed5 || match documented_backend v with Some _ => true | None => false end = true | _ => True end ->
+  option_result_gen fixed5 k v = Ok -> WellFormed (POption k v).
+Proof.
+  intros fixed5 k v G H. cbn [WellFormed]. destruct k; cbn [option_result_gen option_requested option_effect] in *.
+  - destruct (validate_solver_str b v) eqn:V; [|discriminate].
+    destruct (validated_dispatch_str b v V) as [R M]. rewrite R, M. split; [discriminate | reflexivity].
+  - destruct (documented_backend v) as [c|] eqn:D.
+    + rewrite (documented_select v c D). cbn. split; [discriminate | reflexivity].
+    + exfalso. unfold backend_result in H. rewrite (undocumented_select v D), D in H.
+      rewrite orb_false_r in G. subst fixed5. discriminate.
+  - destruct (dtype_of v); [split; [discriminate | reflexivity] | discriminate].
+  - destruct (scipy_method_of v); [split; [discriminate | reflexivity] | discriminate].
+Qed.
+Lemma option_not_warn : forall k v, option_result k v <> Warn.
+Proof.
+  intros k v H. unfold option_result, option_result_gen in H. destruct k.
+  - destruct (validate_solver_str b v); discriminate.
+  - unfold backend_result in H. destruct (select_backend v); try discriminate.
+    destruct (documented_backend v); [discriminate|]. destruct fixed_F5; discriminate.
+  - destruct (dtype_of v); discriminate.
+  - destruct (scipy_method_of v); discriminate.
+Qed.
+
 (* C20: whatever returns quietly was a well-formed / supported request *)
 Theorem impl_ok_wellformed : forall p, WFprobe p -> guard p = true -> impl p = Ok -> WellFormed p.
 Proof.
-  intros p W G H. unfold guard in G. apply andb_true_iff in G. destruct G as [G G4].
+  intros p W G H. unfold guard in G. apply andb_true_iff in G. destruct G as [G G5].
+  apply andb_true_iff in G. destruct G as [G G4].
   destruct p; cbn [impl WellFormed WFprobe] in *.
   - apply outcome_ok_supported, H.
   - apply (mixed_ok_supported b s v first_plain e), H.
@@ -806,6 +888,7 @@ Proof.
   - apply node_value_ok_target, H.
   - intros [S C]. unfold check_op_graph in H. rewrite (cycle_rejected _ _ S C) in H. discriminate.
   - apply hier_ok_wellformed; assumption.
+  - apply (option_gen_ok_wellformed fixed_F5); [|exact H]. destruct k; try exact I. exact G5.
 Qed.
 
 Lemma impl_warn : forall p, impl p = Warn -> warn_suffices p = true.
@@ -827,6 +910,7 @@ Proof.
   - apply node_value_warn_suffices, H.
   - unfold check_op_graph in H. destruct (toposort _ _); discriminate.
   - apply hier_warn, H.
+  - exfalso. exact (option_not_warn _ _ H).
 Qed.
 
 Theorem malformed_is_loud : forall p, WFprobe p -> guard p = true -> ~ WellFormed p -> loud_enough p (impl p).
@@ -876,6 +960,11 @@ Proof.
     + rewrite (path3b_iff _ _ W). tauto.
     + rewrite (node_value_targetb_iff _ _ W). tauto.
     + rewrite (path3b_iff _ _ W). tauto.
+  - destruct (option_requested k v) as [r|], (option_effect k v) as [e|].
+    + rewrite String.eqb_eq. split; [intros ->; split; [discriminate | reflexivity] | intros [_ E]; congruence].
+    + split; [discriminate | intros [_ E]; discriminate].
+    + split; [discriminate | intros [E _]; congruence].
+    + split; [discriminate | intros [E _]; congruence].
 Qed.
 
 (* the test applied to an observed outcome is the property *)
@@ -890,13 +979,13 @@ Qed.
 (* ---- the full-strength statement and its refutation (F1 and F2 were repaired by D48 / D49) ---- *)
 Definition C20_full_statement : Prop := forall p, WFprobe p -> impl p = Ok -> WellFormed p.
 
-Definition F3_probe : probe := PVerifyPath ["label"] F3_net F3_path.
-
 Lemma refute_by : forall p, wfprobeb p = true -> impl p = Ok -> wellformedb p = false -> ~ C20_full_statement.
 Proof.
   intros p W Hi NW H. pose proof (wfprobeb_WF p W) as W'.
   apply (wellformedb_iff p W') in H; [congruence | exact W' | exact Hi].
 Qed.
+Definition F3_probe : probe := PVerifyPath ["label"] F3_net F3_path.
+
 (* the code as it is: refuted *)
 Theorem C20_refuted_verify_path : fixed_F3 = false -> ~ C20_full_statement /\ guard_path_not_attr F3_probe = false.
 Proof.
@@ -905,31 +994,43 @@ Proof.
     unfold F3_probe, impl, verify_path. rewrite E. vm_compute. reflexivity.
   - unfold F3_probe, guard_path_not_attr. rewrite E. vm_compute. reflexivity.
 Qed.
-(* after D76 (fixed_F3 = true) the only guard left is the one of F4 *)
-Theorem C20_full_modulo_F4_when_F3_fixed : fixed_F3 = true ->
-  forall p, WFprobe p -> guard_node_value_not_circuit p = true -> impl p = Ok -> WellFormed p.
+Lemma guard_true_when_fixed : fixed_F3 = true -> fixed_F4 = true -> fixed_F5 = true -> forall p, guard p = true.
 Proof.
-  intros E3 p W G Hi. apply (impl_ok_wellformed p W); [|exact Hi].
-  unfold guard. rewrite G, andb_true_r. unfold guard_path_not_attr.
-  destruct p; try reflexivity; rewrite E3; reflexivity.
+  intros E3 E4 E5 p. unfold guard, guard_path_not_attr, guard_node_value_not_circuit, guard_backend_documented.
+  destruct p; try reflexivity; try (rewrite E3; reflexivity).
+  - destruct k; try reflexivity; rewrite ?E3, ?E4; reflexivity.
+  - destruct k; try reflexivity; rewrite ?E5; reflexivity.
 Qed.
-(* with both repairs (D76 = F3, proposed_fix_C20_F4): the full statement is a theorem *)
-Theorem C20_full_when_fixed : fixed_F3 = true -> fixed_F4 = true -> C20_full_statement.
+(* after D76 and D79 (fixed_F3 = fixed_F4 = true) the only guard left is the one of F5 *)
+Theorem C20_full_modulo_F5_when_F3_F4_fixed : fixed_F3 = true -> fixed_F4 = true ->
+  forall p, WFprobe p -> guard_backend_documented p = true -> impl p = Ok -> WellFormed p.
 Proof.
-  intros E3 E4 p W Hi. apply (impl_ok_wellformed p W); [|exact Hi].
-  unfold guard, guard_path_not_attr, guard_node_value_not_circuit.
+  intros E3 E4 p W G Hi. apply (impl_ok_wellformed p W); [|exact Hi].
+  unfold guard. rewrite G, andb_true_r. unfold guard_path_not_attr, guard_node_value_not_circuit.
   destruct p; try reflexivity; try (rewrite E3; reflexivity).
   destruct k; try reflexivity; rewrite ?E3, ?E4; reflexivity.
 Qed.
-Lemma guard_true_when_fixed : fixed_F3 = true -> fixed_F4 = true -> forall p, guard p = true.
+(* with all repairs (D76 = F3, D79 = F4, proposed_fix_C20_F5): the full statement is a theorem *)
+Theorem C20_full_when_fixed : fixed_F3 = true -> fixed_F4 = true -> fixed_F5 = true -> C20_full_statement.
 Proof.
-  intros E3 E4 p. unfold guard, guard_path_not_attr, guard_node_value_not_circuit.
-  destruct p; try reflexivity; try (rewrite E3; reflexivity).
-  destruct k; try reflexivity; rewrite ?E3, ?E4; reflexivity.
+  intros E3 E4 E5 p W Hi. apply (impl_ok_wellformed p W); [|exact Hi]. apply (guard_true_when_fixed E3 E4 E5).
 Qed.
-Theorem malformed_is_loud_when_fixed : fixed_F3 = true -> fixed_F4 = true ->
+Theorem malformed_is_loud_when_fixed : fixed_F3 = true -> fixed_F4 = true -> fixed_F5 = true ->
   forall p, WFprobe p -> ~ WellFormed p -> loud_enough p (impl p).
-Proof. intros E3 E4 p W. apply (malformed_is_loud p W), (guard_true_when_fixed E3 E4). Qed.
+Proof. intros E3 E4 E5 p W. apply (malformed_is_loud p W), (guard_true_when_fixed E3 E4 E5). Qed.
+(* the code as it is: an undocumented backend name silently selects the numpy backend (finding F5) *)
+Definition F5_probe : probe := POption OBackend (Some "JAX").
+Theorem C20_refuted_backend_name : fixed_F5 = false -> ~ C20_full_statement /\ guard_backend_documented F5_probe = false.
+Proof.
+  intros E. split.
+  - apply (refute_by F5_probe); [vm_compute; reflexivity | | vm_compute; reflexivity].
+    unfold F5_probe, impl, option_result. rewrite E. vm_compute. reflexivity.
+  - unfold F5_probe, guard_backend_documented. rewrite E. vm_compute. reflexivity.
+Qed.
+Theorem backend_name_repaired : forall v, documented_backend v = None -> backend_result true v = Err EPyRates.
+Proof.
+  intros v D. unfold backend_result. rewrite (undocumented_select v D), D. reflexivity.
+Qed.
 (* the code as it was after D76 and before D79: refuted by a too-short node_values key that names a circuit (finding F4) *)
 Definition F4_hnet : hnetwork := [(["c1"; "a"], [("o1", ["g"])]); (["c1"; "b"], [("o1", ["g"])])].
 Definition F4_probe : probe := PHier HNodeValue 1 F4_hnet ["c1"; "o1"; "g"].
